@@ -343,6 +343,8 @@ def run(prog, rep):
     from .c16 import xml_parser_options
     xml_parser_options(prog, rep, "PARSE-1", ("encoding", "recover"), module="odml.tools.converters.version_converter")
 
+    from .common_tables import stateless_tools_rule
+    stateless_tools_rule(prog, rep, "STATE-2", ("VersionConverter",))
     # ----------------------------------------------------------------- MAP-1
     rep.rule("MAP-1", "_replace_same_name_entities passes different map objects to _change_entity_name for Section names and for "
                       "Property names, and clears the Property map once per Section")
